@@ -41,6 +41,9 @@ enum {
 	FM_LEGACYSHAPE = 16384, // SSE/FO4 file that still contains NiTriShape geometry (built as Skyrim LE, then re-versioned)
 	FM_EXPORTINFO = 32768,  // 300-character export info in the header
 	FM_TEXPATH = 65536,     // a texture path that needs cleaning in texture slot 0
+	FM_DATALESS = 1048576,  // OB/FO3/SK: a NiTriShape "NoData" without geometry data is the first shape of the file
+	FM_BONETYPE = 524288,   // with FM_SKIN: bone "Bone1" is a BSValueNode (value 42) instead of a NiNode
+	FM_STRIPS = 262144,     // OB/FO3/SK: "Shape" is a NiTriStrips (one strip 0-1-2-3) instead of a NiTriShape
 	FM_SRCTEX = 131072      // OB/FO3: NiTexturingProperty (base texture) -> NiSourceTexture with a path that needs cleaning
 };
 
@@ -103,11 +106,43 @@ static inline FmModel fm_build(NifFile& nif, int ver, int feat) {
 	std::vector<Triangle> tris;
 	std::vector<Vector2> uvs;
 	fm_geometry(verts, tris, uvs, norms, feat & FM_SYMPOS);
+	if ((feat & FM_DATALESS) && (ver == FM_OB || ver == FM_FO3 || ver == FM_SK)) {
+		auto [ndS, nd] = nifly::make_unique<NiTriShape>();
+		nd->name.get() = "NoData";
+		uint32_t id = nif.GetHeader().AddBlock(std::move(ndS));
+		nif.GetRootNode()->childRefs.AddBlockRef(id);
+	}
 	m.shape = nif.CreateShapeFromData("Shape", &verts, &tris, &uvs, &norms);
+	if ((feat & FM_STRIPS) && (ver == FM_OB || ver == FM_FO3 || ver == FM_SK)) {
+		NiHeader& h = nif.GetHeader();
+		auto old = dynamic_cast<NiTriShape*>(m.shape);
+		uint32_t shapeId = nif.GetBlockID(old);
+		uint32_t dataId = old->DataRef()->index;
+		auto [sdS, sd] = nifly::make_unique<NiTriStripsData>();
+		sd->Create(h.GetVersion(), &verts, &tris, &uvs, &norms);
+		sd->numTriangles = 2;
+		sd->stripsInfo.stripLengths.resize(1);
+		sd->stripsInfo.stripLengths[0] = 4;
+		sd->stripsInfo.points = {{0, 1, 2, 3}};
+		auto [stS, st] = nifly::make_unique<NiTriStrips>();
+		*static_cast<NiTriBasedGeom*>(st) = *static_cast<NiTriBasedGeom*>(old);
+		st->SetGeomData(sd);
+		h.ReplaceBlock(dataId, std::move(sdS));
+		h.ReplaceBlock(shapeId, std::move(stS));
+		m.shape = st;
+	}
 	if (feat & FM_SKIN)
 		fm_skin(nif, m.shape, "Shape", 4, (feat & FM_BONETREE) != 0);
 	else
 		nif.AddNode("Bone0", t);
+	if ((feat & FM_BONETYPE) && (feat & FM_SKIN)) {
+		if (auto b = nif.FindBlockByName<NiNode>("Bone1")) {
+			auto [vS, v] = nifly::make_unique<BSValueNode>();
+			*static_cast<NiNode*>(v) = *b;
+			v->value = 42;
+			nif.GetHeader().ReplaceBlock(nif.GetBlockID(b), std::move(vS));
+		}
+	}
 	if (feat & FM_SHAPE2) {
 		std::vector<Vector3> v2 = {Vector3(2, 0, 0), Vector3(3, 0, 0), Vector3(2, 1, 0)};
 		std::vector<Triangle> t2 = {Triangle(0, 1, 2)};
